@@ -482,6 +482,13 @@ func runC10(w *World, r *Report, tier string) {
 		}
 		qv, has := fields["UnAckQueue"]
 		if !has {
+			// a state that goes on (it keeps or sets a session id) but comes without the queue: whatever was held is gone,
+			// and from now on Push has nothing to push onto
+			// (EnableStreamManagement, which may install the queue by a second statement, is judged per path below)
+			if idv, keeps := fields["Id"]; keeps && !isZeroValue(idv) && w.ownerKey(a.Fn) != "xmpp.(*Session).EnableStreamManagement" {
+				n8++
+				r.Fail("R8", fmt.Sprintf("%s#store:SMState-without-queue#%d", w.ownerKey(a.Fn), n8), w.ipos(a.Instr), "the stream-management state is replaced by one that keeps a session id but has no queue of unacknowledged stanzas: what was held is dropped and nothing sent afterwards is held")
+			}
 			continue
 		}
 		n8++
